@@ -14,6 +14,7 @@
 import LccModel.Lemmas.SessionIso
 import LccModel.Lemmas.WriterIso
 import LccModel.Lemmas.ThreadsAttach
+import LccModel.Lemmas.SessionAttach
 
 namespace LccModel.C06
 open LccModel.Report LccModel.Session LccModel.Writer LccModel.SessionIso LccModel.WriterIso
@@ -237,6 +238,98 @@ example :
     = some ([("A", ["a1", "a2"]), ("A", ["a-thread"])], [("B", ["b1", "b2"]), ("B2", ["b3"])]) := by
   decide
 
+/-! ## (d) which attachments the stream references (M3): only blocks that were left normally
+
+  `prepare_attachment` is a context manager: the name is handed out on entry (`attachBegin`), the user's
+  `with` body writes the file, the `LogAttachmentEvent` is fired on NORMAL exit (`attachEnd`).  When the body
+  (or `shutil.copy` in `save_attachment_file`, e.g. on a missing source file) raises, the block is left by
+  the exception (`attachAbort`): nothing after the `yield` runs.  The ledger `SessionAttach.Book` is computed
+  from the call sequence alone: one record (thread, number, pseudo file name, description, image flag) per
+  block entered, `opened` → `reported` (left normally; the atomic `attach` = enter + leave) or `aborted`. -/
+
+section Referenced
+open LccModel.SessionAttach
+
+/-- **An aborted block fires no event.**  Leaving a `prepare_attachment` block by an exception changes
+    nothing but the set of open blocks: the fired stream, every cursor (held events included), the failure
+    set and the counter are untouched — the report never hears of the name that was handed out. -/
+theorem aborted_block_fires_nothing {s s' : St} {t : Nat} (h : step s t .attachAbort = .ok s') :
+    s'.fired = s.fired ∧ s'.cursors = s.cursors ∧ s'.failures = s.failures ∧ s'.attachCount = s.attachCount ∧
+    ∃ p, s.prepared.find? (fun p => p.tid == t) = some p ∧
+      s'.prepared = s.prepared.eraseP (fun p => p.tid == t) := by
+  simp only [step] at h
+  cases hf : s.prepared.find? (fun p => p.tid == t) with
+  | none => rw [hf] at h; cases h
+  | some p =>
+    rw [hf] at h; simp only at h; injection h with h; subst h
+    exact ⟨rfl, rfl, rfl, rfl, p, rfl, rfl⟩
+
+/-- **The attachment events of the stream are exactly the blocks that were left normally**, in the order
+    they were left, for EVERY accepted call sequence of any threads: the list of (thread id, path,
+    description, image flag) of the fired `LogAttachmentEvent`s equals the `reported` records of the ledger;
+    the blocks still open are the ledger's `opened` records and the counter is the number of blocks ever
+    entered.  Hence no other call (log, step change, thread start, result end, …) ever produces an attachment
+    event, and a block that is aborted, or entered and never left, contributes none. -/
+theorem attachment_events_are_the_completed_blocks {ops : List (Nat × Op)} {s : St}
+    (h : runOps St.init ops = .ok s) :
+    attsOf s.fired = (Book.init.run ops).reported.map Rec.view ∧
+    s.prepared = (Book.init.run ops).opened.map Rec.prep ∧
+    s.attachCount = (Book.init.run ops).count := by
+  have := link_runOps ops Book.init St.init s link_init inv_init h
+  exact ⟨this.fired, this.prepared, this.count⟩
+
+/-- **Numbers are never shared between blocks**: the numbers (the `%04d` prefix of the file name) of all
+    blocks ever entered — reported, aborted, still open — are pairwise different, for every call sequence.
+    In particular the number of an aborted or open block is not the number of any reported attachment, and
+    two reported attachments have different numbers (M3 increments atomically; the refinement to byte-code
+    steps under `_attachment_lock` is part (c)). -/
+theorem block_numbers_distinct (ops : List (Nat × Op)) :
+    (((Book.init.run ops).opened ++ (Book.init.run ops).reported ++ (Book.init.run ops).aborted).map (·.num)).Nodup :=
+  book_nums ops
+
+/-- **Every fired attachment event was prepared by an `attachBegin` (or atomic `attach`) of the same
+    thread**: for every accepted call sequence and every `LogAttachmentEvent(…, t, path, d, img)` in its fired
+    stream, the sequence contains a call `attachBegin f d img` / `attach f d img` issued by thread `t` itself,
+    and `path` is the name handed out by that very call: `attachName (k + 1) f` where `k` blocks had been
+    entered before it. -/
+theorem fired_attachment_prepared_by_own_thread {ops : List (Nat × Op)} {s : St}
+    (h : runOps St.init ops = .ok s) {l : Loc} {st : Option String} {t : Nat} {path d : String} {img : Bool}
+    {time : Nat} (he : Event.attachment l st t path d img time ∈ s.fired) :
+    ∃ pre post op f, ops = pre ++ (t, op) :: post ∧ (op = .attach f d img ∨ op = .attachBegin f d img) ∧
+      path = attachName ((Book.init.run pre).count + 1) f := by
+  have hv := mem_attsOf he
+  rw [(attachment_events_are_the_completed_blocks h).1] at hv
+  obtain ⟨r, hr, hview⟩ := List.mem_map.mp hv
+  have hall : r ∈ (Book.init.run ops).all := by simp [Book.all, hr]
+  obtain ⟨pre, post, op, h1, h2, h3⟩ := rec_origin ops r hall
+  simp only [Rec.view, Prod.mk.injEq] at hview
+  obtain ⟨v1, v2, v3, v4⟩ := hview
+  refine ⟨pre, post, op, r.filename, ?_, ?_, ?_⟩
+  · rw [← v1]; exact h1
+  · rw [← v3, ← v4]; exact h2
+  · rw [← v2, Rec.name, h3]
+
+/-- non-vacuity: worker 1 leaves a block by an exception inside an outer block that completes, worker 2
+    enters a block and never leaves it, then worker 1 saves another attachment — the stream references
+    exactly the outer block (number 1) and the last one (number 4); numbers 2 (aborted) and 3 (open) are
+    never referenced -/
+example :
+    (match runOps St.init
+        [(1, .startTest ["s", "a"] (demoMd "a" 0)), (1, .setStep "A"),
+         (1, .attachBegin "o.txt" "outer" false), (1, .attachBegin "i.txt" "inner" true), (1, .attachAbort),
+         (2, .attachBegin "w.txt" "open" false), (1, .attachEnd), (1, .attach "l.txt" "last" false)] with
+     | .ok s => some (attsOf s.fired, s.attachCount, s.prepared.map (·.name))
+     | .error _ => none)
+    = some ([(1, "attachments/0001_o.txt", "outer", false), (1, "attachments/0004_l.txt", "last", false)], 4,
+            ["attachments/0003_w.txt"]) := by
+  decide
+
+/-- … and leaving a block that was never entered is an error of the model (not expressible in Python) -/
+example : (match runOps St.init [(1, .startTest ["s", "a"] (demoMd "a" 0)), (1, .attachAbort)] with
+    | .ok _ => none | .error e => some e) = some Err.noAttach := by decide
+
+end Referenced
+
 /-! ## (c) attachment names (M14): the counter under `_attachment_lock` -/
 
 section Attachments
@@ -299,6 +392,23 @@ example : (Attach.run true Attach.init
 theorem attachment_exists_before_event {b : Bool} {tr : List (Nat × Attach.Act)} {s : Attach.St}
     (h : Attach.run b Attach.init tr = some s) : ∀ n ∈ s.events, n ∈ s.files :=
   (Attach.run_fileInv tr Attach.init s Attach.fileInv_init h).events
+
+/-- The atomic steps include `abort`: the caller's `with` body raises (before or after it wrote the file)
+    and the generator is left by the exception.  It references nothing: events, files, counter and the names
+    handed out are unchanged; the theorems above quantify over interleavings WITH such steps. -/
+theorem attachment_abort_fires_no_event {b : Bool} {s s' : Attach.St} {t : Nat}
+    (h : Attach.step b s t .abort = some s') :
+    s'.events = s.events ∧ s'.files = s.files ∧ s'.count = s.count ∧ s'.names = s.names ∧ s'.pc t = .idle := by
+  simp only [Attach.step] at h
+  cases hp : s.pc t <;> rw [hp] at h <;> try cases h
+  all_goals exact ⟨rfl, rfl, rfl, rfl, by simp [Attach.setPc]⟩
+
+/-- non-vacuity: thread 1 aborts before writing, thread 2 completes: numbers 1, 2 handed out, only file 2
+    written, only attachment 2 referenced -/
+example : (Attach.run true Attach.init
+    [(1, .acquire), (1, .readName), (1, .readInc), (1, .writeInc), (1, .release), (2, .acquire), (1, .abort),
+     (2, .readName), (2, .readInc), (2, .writeInc), (2, .release), (2, .writeFile), (2, .fireEvent)]).map
+      (fun s => (Attach.numbers s, s.files, s.events)) = some ([1, 2], [2], [2]) := by decide
 
 end Attachments
 
